@@ -299,8 +299,12 @@ def run_shard(shard, rec):
             for waitall, honour in MODES:      # n = 0: no stream bytes may be consumed
                 fs = TraceReadSock(b"abcdefg", (), honour, None)
                 env[0].USE_MSG_WAITALL = waitall
-                out = env[0].receive_data(fs, 0)
                 rec.case(("r0", waitall, honour))
+                try:
+                    out = env[0].receive_data(fs, 0)
+                except Exception as x:
+                    rec.violation("recv-raises-without-cause", "a zero-length read raised %r (nothing was asked for, the stream is intact)" % (x,), ("r", 0, (), waitall, honour, None))
+                    continue
                 if bytes(out) != b"" or fs.pos != 0:
                     rec.violation("recv-wrong-consumption", "zero-length read returned %r / consumed %d" % (out, fs.pos), ("r", 0, (), waitall, honour, None))
         rec.exhaustive = True
